@@ -374,6 +374,10 @@ def gen_cases(rng, tier, have):
         for n in (q * q, 2 * q * q, q ** 3):
             C.append(mk("prim_root" if q != 3511 else "prim_root.runs", [n], "prim_root", n=n))
             C.append(mk("is_prim_root", [2 if q != 40487 else 5, n], "is_prim_root", a=2 if q != 40487 else 5, n=n))
+    # primes for which prim_root_of_prime's first phase walks past 2 (and 3, ...): the stale-list defect of fix-4 showed at 3889
+    for q in (17, 257, 433, 641, 3457, 3889, 21169, 39367, 65537, 270337, 786433):
+        C.append(mk("prim_root_of_prime", [q], "prim_root_of_prime", n=q))
+        C.append(mk("prim_root_of_prime.L", [q] + sorted(factor(q - 1), reverse=True), "prim_root_of_prime", n=q))
     for i in range(60 if th else 16):
         q = rand_prime(rng, rng.range(14, 32))          # the code factors p^m by Pollard rho: ~4 s for a 43-bit p
         _FC.update({q: {q: 1}, 2 * q: {2: 1, q: 1}, q * q: {q: 2}, 2 * q ** 3: {2: 1, q: 3}})
@@ -414,7 +418,7 @@ def gen_cases(rng, tier, have):
     for i in range(60 if th else 20):
         q = rng.choice([3, 5, 7, 17, 41, 97, 193, 257, 65537]) if rng.chance(1, 2) else rand_prime(rng, rng.choice([20, 40, 64, 70]), rng.choice([1, 3, 5, 7, 9, 11, 13, 15]))
         for k in ([2, 3, 4, 5, 6, 7, 8, 9, 15, 16, 17, 31, 32, 33, 40] if th else [2, 3, 4, 5, 7, 8, 16, 33, 40]):
-            if q.bit_length() * k > (4000 if th else 800):
+            if q.bit_length() * k > (1600 if th else 800):
                 continue
             qk = q ** k
             r = rng.range(1, qk - 1)
@@ -612,6 +616,10 @@ def spec(c, out, small_cache):
     if k in ("prim_root_of_prime", "probable_prim_root"):
         n = c["n"]; A = int(t[0])
         ok = 0 < A < n and order_of(A, n) == n - 1
+        if k == "prim_root_of_prime":
+            # input class: the first phase walks past 2 (2 lacks the full f-part for EVERY prime f | n-1)
+            skips2 = all(pow(2, (n - 1) // f, n) == 1 for f in factor(n - 1))
+            return ok, "a primitive root of the prime n in (0,n)", S_NT + k, "first-phase-skips-2" if skips2 else "prime"
         if k == "probable_prim_root" and len(t) > 1 and t[1] != "0":
             return True, "probabilistic (incomplete factorisation)", S_NT + k, "prime"
         return ok, "a primitive root of the prime n in (0,n)", S_NT + k, "prime"
@@ -715,8 +723,8 @@ def model_line(c, out):
         n = c["n"]; F = factor(n); F.pop(2, None)
         p = list(F)[0] if F else 2
         return "prim_root %d %d %s %d" % (n, p, L(sorted(factor(p - 1)) if p > 2 else []), int(t[0]) % p)
-    if k == "prim_root_of_prime":
-        return "prim_root_of_prime %d %s" % (c["n"], L(sorted(factor(c["n"] - 1))))
+    if k == "prim_root_of_prime":       # the .L form hands its own list over (in the order given)
+        return "prim_root_of_prime %d %s" % (c["n"], L(c["iargs"][1:] if c["iop"].endswith(".L") else sorted(factor(c["n"] - 1))))
     if k == "sqrtp":
         dr = out.split(";")[1].split() if ";" in out else []
         return "sqrootmodprime %d %d %s" % (c["a"], c["p"], L(dr))
@@ -904,7 +912,8 @@ def main(tier, replay=None):
     else:
         cases = gen_cases(rng, tier, have)
     ilines = ["%s %s" % (c["iop"], " ".join(str(x) for x in c["iargs"])) for c in cases]
-    okr, iout, ierr = run_parallel(himpl, ilines)
+    tmo = 1500 if tier == "thorough" else 280
+    okr, iout, ierr = run_parallel(himpl, ilines, timeout=tmo)
     crashed = [i for i, o in enumerate(iout) if o is None or o.startswith("CRASH")]
     for i in crashed[:40]:
         chk.fail_input("harness:" + cases[i]["iop"], "crash-or-hang", dict(cases[i]), "a result line", str(iout[i]), "the implementation crashed or hung on this case; " + ierr[-300:])
@@ -915,7 +924,7 @@ def main(tier, replay=None):
     mout = None
     idx = [i for i, m in enumerate(mlines) if m is not None]
     if drv:
-        okm, mo, merr = run_parallel(drv, [mlines[i] for i in idx], nproc=8)
+        okm, mo, merr = run_parallel(drv, [mlines[i] for i in idx], nproc=8, timeout=tmo)
         if not okm:
             chk.broke("model driver failed", merr)
         else:
